@@ -7,6 +7,9 @@ Every case builds a small generated tree sequence (dyadic coordinates/times), a 
   (2) first-principles tuple/pair/MRCA definitions,
   (3) window-refinement laws,
   (4) threaded executions (num_threads fan-out, concurrent Python threads, ThreadSanitizer build).
+Audit families (lib/props/c08_wide.py, gap list in lib/props/AUDIT-C08.md): "forms" (other argument forms, defaults
+left out, positional arguments, deprecated aliases), "big" (> 256 windows / columns / samples / children, one sample),
+"coal" (pair coalescence quantiles and rates, time windows starting at the sample time).
 
 Mechanism keys of the genuine defects this check found on the pinned tree (fixes/ has one patch each):
   afs/branch/stale-last-update                         D16  branch AFS flushes a node that regains a parent over
@@ -31,7 +34,16 @@ EITHER zones (what the documentation leaves open; the oracle accepts both):
       when the two differ.
   E5  divergence_matrix diagonal of a singleton set (undocumented): 0 or nan.
   E6  ill-conditioned ratios (Tajimas_D, Fst, genetic_relatedness(proportion=True), trait_correlation,
-      trait_linear_model): compared only when the reference denominator is > 1e-6 in magnitude.
+      trait_linear_model): compared only when the reference denominator is > 1e-6 in magnitude.  Narrowed (audit):
+      in site and node mode a denominator that is EXACTLY zero / nan in the reference (sums of non-negative terms
+      that are all zero) must give nan (Tajimas_D, Fst) or nan/inf (proportion).  Not in branch mode, where the
+      running sums of the incremental algorithm keep a rounding residue in stretches without branches (the real
+      code returns e.g. Fst = 1.0 or Tajimas_D = inf there).
+  E10 genetic_relatedness_weighted: the docstring says polarised "Defaults to True", the signature says False; the
+      default of that parameter is not asserted (lib/props/c08_wide.py passes it explicitly).
+  E11 pair_coalescence_quantiles: a quantile within 1e-12 of a step of the empirical cdf may resolve to either
+      neighbouring time, unless every operation on that step is exact in binary64 (then the inverted-cdf value is
+      demanded); quantile 0 is not generated; windows in which no pair coalesces are not compared.
   E7  errors: which exception type is raised for an invalid argument is not checked, only that one is.
   E9  kc_distance with internal samples: the contribution of a pair (internal sample, descendant) is not
       documented; KC distances are checked on trees whose samples are all tips (rf_distance on all).
@@ -57,7 +69,11 @@ ID = "C08"
 RTOL = 1e-9
 ATOL = 1e-12
 
-FAMILIES = ["general", "named", "afs", "matrix", "trait", "topo", "ld", "meta", "threads", "named", "dist"]
+# "forms" (argument forms / defaults / aliases), "coal" (pair coalescence quantiles, rates, time-window boundaries) and
+# "big" (> 256 windows / columns / samples / children, one sample) are the audit families of lib/props/c08_wide.py;
+# together they cost about a tenth of one rotation
+FAMILIES = ["general", "named", "afs", "forms", "matrix", "trait", "topo", "ld", "coal", "meta", "threads", "named",
+            "forms", "dist", "big"]
 
 
 def cases(tier, seed):
@@ -348,9 +364,26 @@ def negative_arguments(cs, rng):
     for w in ([L / 4, L], [0.0, L / 2], [0.0, L / 2, L / 4, L], [0.0, L / 2, L / 2, L], [0.0, L, 2 * L], [0.0]):
         trials.append(("bad-windows", f"diversity(windows={w}, mode={mode})",
                        lambda w=w: ts.diversity(windows=w, mode=mode)))
+    # documented (docs/stats.md, multi-way methods): index tuples hold integers between 0 and len(sample_sets) - 1;
+    # indexes=None needs exactly k sample sets
+    ns = rng.randint(2, 3)
+    isets = rand_sample_sets(rng, ref.samples, k=ns)
+    stat2 = rng.choice(["divergence", "Y2", "f2", "Fst", "genetic_relatedness"])
+    for bad_idx in ([(0, ns)], [(ns, 0)], [(0, 1), (1, ns + 5)], [(-1, 0)], (0, ns)):
+        trials.append(("index-out-of-range", f"{stat2}(sample_sets={isets}, indexes={bad_idx}, mode={mode})",
+                       lambda bad_idx=bad_idx: getattr(ts, stat2)(isets, indexes=bad_idx, mode=mode)))
+    stat3 = rng.choice(["Y3", "f3", "f4"]) if ns == 2 else "f4"
+    trials.append(("default-indexes-with-wrong-number-of-sets",
+                   f"{stat3}(sample_sets={isets}, indexes=None, mode={mode})",
+                   lambda: getattr(ts, stat3)(isets, mode=mode)))
+    if ns == 3:
+        trials.append(("default-indexes-with-wrong-number-of-sets",
+                       f"{stat2}(sample_sets={isets}, indexes=None, mode={mode})",
+                       lambda: getattr(ts, stat2)(isets, mode=mode)))
     name, what, thunk = rng.choice(trials)
     ok, got = call(ctx, thunk)
     ctx.count("negative-arguments")
+    ctx.feature(f"negative:{name}")
     if ok:
         ctx.violation(f"arguments/{name}-accepted", f"{what} returned {_fmt(got)} instead of raising", cs.detail())
 
@@ -524,6 +557,116 @@ def ref_sample_count_stat(ref, stat, sets, idx_list, windows, mode, span_normali
     return exp, mag, nterms, degenerate
 
 
+def ref_tajimas_d(ref, sets, windows, mode):
+    """Tajimas_D from its documented composition.  Returns (exp, compare-mask, must-be-nan mask, tol), full shape.
+    E6: entries whose reference denominator is below 1e-6 are not compared, EXCEPT that (site and node mode) an
+    entry with no segregating allele / node at all (S == 0 exactly: a sum of non-negative terms that are all zero)
+    is (0 - 0/h) / sqrt(0) = nan in any evaluation order and must be nan."""
+    idx_list = [(i,) for i in range(len(sets))]
+    T, Tm, nt, _ = ref_sample_count_stat(ref, "diversity", sets, idx_list, windows, mode, False)
+    S, Sm, _, _ = ref_sample_count_stat(ref, "segregating_sites", sets, idx_list, windows, mode, False)
+    exp = np.zeros_like(T)
+    cmpmask = np.zeros(T.shape, dtype=bool)
+    tol = np.zeros_like(T)
+    for c, A in enumerate(sets):
+        h, a, b, cc = R.tajd_constants(len(A))
+        with np.errstate(all="ignore"):
+            num = T[..., c] - S[..., c] / h
+            den2 = a * S[..., c] + (b / cc) * S[..., c] * (S[..., c] - 1)
+            den = np.sqrt(den2)
+            exp[..., c] = num / den
+            good = np.isfinite(den) & (np.abs(den) > 1e-6) & np.isfinite(num) & (den2 > 1e-6)
+            cmpmask[..., c] = good
+            tol[..., c] = np.where(good, (1e-8 * (Tm[..., c] + Sm[..., c] + 1)) / np.where(good, den, 1) *
+                                   (1 + np.abs(np.where(good, exp[..., c], 0))) + 1e-9, 0)
+    must_nan = (S == 0) & ~cmpmask
+    if mode == "branch":
+        # the branch algorithm keeps a running sum that is added to and subtracted from as edges come and go: in a
+        # stretch without branches it may hold a rounding residue instead of 0, so 0/0 is not guaranteed there
+        must_nan[...] = False
+    return exp, cmpmask, must_nan, tol
+
+
+def check_tajimas_d(cs, sets, windows, mode, drop_last, got, what):
+    ctx = cs.ctx
+    exp, cmpmask, must_nan, tol = ref_tajimas_d(cs.ref, sets, windows, mode)
+    gfull = np.asarray(got, dtype=float)
+    e = drop_dims(exp, windows is None, drop_last)
+    mk = drop_dims(cmpmask, windows is None, drop_last)
+    mn = drop_dims(must_nan, windows is None, drop_last)
+    tl = drop_dims(tol, windows is None, drop_last)
+    ctx.count("tajimas_d:entries-compared", int(mk.sum()))
+    ctx.count("tajimas_d:entries-must-be-nan", int(mn.sum()))
+    ctx.count("tajimas_d:entries-ill-conditioned", int((~mk & ~mn).sum()))
+    if gfull.shape != e.shape:
+        ctx.count(f"named:{mode}")
+        ctx.violation(f"Tajimas_D/{mode}/shape", f"{what}: shape {gfull.shape} expected {e.shape}", cs.detail())
+        return
+    e2 = np.where(mk, e, np.where(mn, np.nan, gfull))  # E6
+    cs.check(f"named:{mode}", f"Tajimas_D/{mode}/composition", gfull, e2, tl, what)
+
+
+def ref_fst(ref, sets, idx_list, windows, mode, span_normalise):
+    """Fst = 1 - 2 (d(X) + d(Y)) / (d(X) + 2 d(X,Y) + d(Y)).  Returns (exp, compare-mask, must-be-nan mask, tol).
+    E6 as for Tajimas_D: a denominator that is nan (a singleton set has no diversity) or exactly zero (three sums
+    of non-negative terms that are all zero, so the numerator is zero too) gives nan in any evaluation order."""
+    oneidx = [(i,) for i in range(len(sets))]
+    dv, dvm, _, _ = ref_sample_count_stat(ref, "diversity", sets, oneidx, windows, mode, span_normalise)
+    dg, dgm, _, _ = ref_sample_count_stat(ref, "divergence", sets, idx_list, windows, mode, span_normalise)
+    exp = np.zeros_like(dg)
+    mk = np.zeros(dg.shape, dtype=bool)
+    mn = np.zeros(dg.shape, dtype=bool)
+    tol = np.zeros_like(dg)
+    for c, (i, j) in enumerate(idx_list):
+        with np.errstate(all="ignore"):
+            den = dv[..., i] + dv[..., j] + 2 * dg[..., c]
+            num = 2 * (dv[..., i] + dv[..., j])
+            exp[..., c] = 1 - num / den
+            good = np.isfinite(den) & (np.abs(den) > 1e-6) & np.isfinite(num)
+            mk[..., c] = good
+            if mode != "branch":  # (branch mode: running sums may hold a rounding residue where the true value is 0)
+                mn[..., c] = np.isnan(den) | (den == 0)
+            scale = dvm[..., i] + dvm[..., j] + dgm[..., c]
+            tol[..., c] = np.where(good, 1e-8 * scale / np.abs(np.where(good, den, 1)) *
+                                   (1 + np.abs(np.where(good, num / np.where(good, den, 1), 0))) + 1e-9, 0)
+    return exp, mk, mn, tol
+
+
+def check_fst(cs, sets, idx_list, windows, mode, span_normalise, drop_last, got, what):
+    ctx = cs.ctx
+    gfull = np.asarray(got, dtype=float)
+    exp, mk, mn, tol = ref_fst(cs.ref, sets, idx_list, windows, mode, span_normalise)
+    e = drop_dims(exp, windows is None, drop_last)
+    if gfull.shape != e.shape:
+        ctx.count(f"named:{mode}")
+        ctx.violation(f"Fst/{mode}/shape", f"{what}: shape {gfull.shape} expected {e.shape}", cs.detail())
+        return
+    g_full = gfull.reshape(exp.shape)
+    ctx.count("fst:entries-compared", int(mk.sum()))
+    ctx.count("fst:entries-must-be-nan", int(mn.sum()))
+    ctx.count("fst:entries-ill-conditioned", int((~mk & ~mn).sum()))
+    cs.check(f"named:{mode}", f"Fst/{mode}/composition", g_full,
+             np.where(mk, exp, np.where(mn, np.nan, g_full)), tol, what)
+
+
+def check_named_values(cs, stat, sets, idx_list, windows, mode, span_normalise, drop_last, got, what):
+    """Compare the value of a sum-type named statistic with its documented summary function (route 1).
+    Returns (g_full, mag, peak) when the shapes agree, else None."""
+    ref, ctx = cs.ref, cs.ctx
+    exp, mag, nterms, degenerate = ref_sample_count_stat(ref, stat, sets, idx_list, windows, mode, span_normalise)
+    peak = float(np.max(mag)) if mag.size else 0.0
+    gfull = np.asarray(got, dtype=float)
+    e = drop_dims(exp, windows is None, drop_last)
+    if gfull.shape != e.shape:
+        ctx.count(f"named:{mode}")
+        ctx.violation(f"{stat}/{mode}/shape", f"{what}: shape {gfull.shape} expected {e.shape}", cs.detail())
+        return None
+    g_full = gfull.reshape(exp.shape)
+    exp = apply_e1(g_full, exp, nterms, degenerate, mode == "node")
+    cs.check(f"named:{mode}", f"{stat}/{mode}/summary-function", g_full, exp, tol_from(mag, peak), what)
+    return g_full, mag, peak
+
+
 def fam_named(cs, rng):
     ts, ref, ctx = cs.ts, cs.ref, cs.ctx
     stats = ONE_WAY + list(K_WAY) + ["Tajimas_D", "Fst", "genetic_relatedness", "genetic_relatedness"]
@@ -570,46 +713,12 @@ def one_way(cs, rng, stat, mode, windows, span_normalise):
         return
     node = mode == "node"
     if stat == "Tajimas_D":
-        T, Tm, nt, _ = ref_sample_count_stat(ref, "diversity", sets, idx_list, windows, mode, False)
-        S, Sm, _, _ = ref_sample_count_stat(ref, "segregating_sites", sets, idx_list, windows, mode, False)
-        exp = np.zeros_like(T)
-        cmpmask = np.zeros(T.shape, dtype=bool)
-        tol = np.zeros_like(T)
-        for c, A in enumerate(sets):
-            h, a, b, cc = R.tajd_constants(len(A))
-            with np.errstate(all="ignore"):
-                num = T[..., c] - S[..., c] / h
-                den2 = a * S[..., c] + (b / cc) * S[..., c] * (S[..., c] - 1)
-                den = np.sqrt(den2)
-                exp[..., c] = num / den
-                good = np.isfinite(den) & (np.abs(den) > 1e-6) & np.isfinite(num) & (den2 > 1e-6)
-                cmpmask[..., c] = good
-                tol[..., c] = np.where(good, (1e-8 * (Tm[..., c] + Sm[..., c] + 1)) / np.where(good, den, 1) *
-                                       (1 + np.abs(np.where(good, exp[..., c], 0))) + 1e-9, 0)
-        gfull = np.asarray(got, dtype=float)
-        e = drop_dims(exp, windows is None, drop_last)
-        mk = drop_dims(cmpmask, windows is None, drop_last)
-        tl = drop_dims(tol, windows is None, drop_last)
-        ctx.count(f"named:{mode}")
-        ctx.count("tajimas_d:entries-compared", int(mk.sum()))
-        ctx.count("tajimas_d:entries-ill-conditioned", int((~mk).sum()))
-        if gfull.shape != e.shape:
-            ctx.violation(f"Tajimas_D/{mode}/shape", f"{what}: shape {gfull.shape} expected {e.shape}", cs.detail())
-            return
-        e2 = np.where(mk, e, gfull)  # E6
-        cs.check(f"named:{mode}", f"Tajimas_D/{mode}/composition", gfull, e2, tl, what)
+        check_tajimas_d(cs, sets, windows, mode, drop_last, got, what)
         return
-    exp, mag, nterms, degenerate = ref_sample_count_stat(ref, stat, sets, idx_list, windows, mode, span_normalise)
-    peak = float(np.max(mag)) if mag.size else 0.0
-    gfull = np.asarray(got, dtype=float)
-    e = drop_dims(exp, windows is None, drop_last)
-    if gfull.shape != e.shape:
-        ctx.count(f"named:{mode}")
-        ctx.violation(f"{stat}/{mode}/shape", f"{what}: shape {gfull.shape} expected {e.shape}", cs.detail())
+    res = check_named_values(cs, stat, sets, idx_list, windows, mode, span_normalise, drop_last, got, what)
+    if res is None:
         return
-    g_full = gfull.reshape(exp.shape)
-    exp = apply_e1(g_full, exp, nterms, degenerate, node)
-    cs.check(f"named:{mode}", f"{stat}/{mode}/summary-function", g_full, exp, tol_from(mag, peak), what)
+    g_full, mag, peak = res
     if stat in ("diversity", "Y1"):
         first_principles_columns(cs, rng, stat, sets, idx_list, windows, mode, span_normalise, g_full, mag, peak)
     elif stat == "segregating_sites":
@@ -679,42 +788,12 @@ def k_way(cs, rng, stat, mode, windows, span_normalise):
     node = mode == "node"
     gfull = np.asarray(got, dtype=float)
     if stat == "Fst":
-        oneidx = [(i,) for i in range(len(sets))]
-        dv, dvm, _, _ = ref_sample_count_stat(ref, "diversity", sets, oneidx, windows, mode, span_normalise)
-        dg, dgm, _, _ = ref_sample_count_stat(ref, "divergence", sets, idx_list, windows, mode, span_normalise)
-        exp = np.zeros_like(dg)
-        mk = np.zeros(dg.shape, dtype=bool)
-        tol = np.zeros_like(dg)
-        for c, (i, j) in enumerate(idx_list):
-            with np.errstate(all="ignore"):
-                den = dv[..., i] + dv[..., j] + 2 * dg[..., c]
-                num = 2 * (dv[..., i] + dv[..., j])
-                exp[..., c] = 1 - num / den
-                good = np.isfinite(den) & (np.abs(den) > 1e-6) & np.isfinite(num)
-                mk[..., c] = good
-                scale = dvm[..., i] + dvm[..., j] + dgm[..., c]
-                tol[..., c] = np.where(good, 1e-8 * scale / np.abs(np.where(good, den, 1)) *
-                                       (1 + np.abs(np.where(good, num / np.where(good, den, 1), 0))) + 1e-9, 0)
-        e = drop_dims(exp, windows is None, drop_last)
-        if gfull.shape != e.shape:
-            ctx.count(f"named:{mode}")
-            ctx.violation(f"Fst/{mode}/shape", f"{what}: shape {gfull.shape} expected {e.shape}", cs.detail())
-            return
-        g_full = gfull.reshape(exp.shape)
-        ctx.count("fst:entries-compared", int(mk.sum()))
-        ctx.count("fst:entries-ill-conditioned", int((~mk).sum()))
-        cs.check(f"named:{mode}", f"Fst/{mode}/composition", g_full, np.where(mk, exp, g_full), tol, what)
+        check_fst(cs, sets, idx_list, windows, mode, span_normalise, drop_last, got, what)
         return
-    exp, mag, nterms, degenerate = ref_sample_count_stat(ref, stat, sets, idx_list, windows, mode, span_normalise)
-    peak = float(np.max(mag)) if mag.size else 0.0
-    e = drop_dims(exp, windows is None, drop_last)
-    if gfull.shape != e.shape:
-        ctx.count(f"named:{mode}")
-        ctx.violation(f"{stat}/{mode}/shape", f"{what}: shape {gfull.shape} expected {e.shape}", cs.detail())
+    res = check_named_values(cs, stat, sets, idx_list, windows, mode, span_normalise, drop_last, got, what)
+    if res is None:
         return
-    g_full = gfull.reshape(exp.shape)
-    exp = apply_e1(g_full, exp, nterms, degenerate, node)
-    cs.check(f"named:{mode}", f"{stat}/{mode}/summary-function", g_full, exp, tol_from(mag, peak), what)
+    g_full, mag, peak = res
     first_principles_columns(cs, rng, stat, sets, idx_list, windows, mode, span_normalise, g_full, mag, peak)
 
 
@@ -733,7 +812,44 @@ def ref_relatedness(ref, sets, idx_list, windows, mode, span_normalise, polarise
             exp = exp / den
             mag = np.where(good, mag / np.where(good, np.abs(den), 1), 0) * 10 + 1e-3 * good
             mk = np.broadcast_to(good, exp.shape).copy()
+            # E6 narrowed: a denominator that is exactly zero (a sum of non-negative terms, all zero) divides the
+            # numerator into nan or +-inf, never into a finite number
+            ref.last_zero_denominator = np.broadcast_to((den == 0) & (mode != "branch"), exp.shape).copy()
+    else:
+        ref.last_zero_denominator = np.zeros(exp.shape, dtype=bool)
     return exp, mag, nterms, mk
+
+
+def check_relatedness_values(cs, sets, idx_list, windows, mode, span_normalise, polarised, centre, proportion,
+                             drop_last, got, what):
+    """genetic_relatedness against its documented summary function (and the quotient by segregating_sites).
+    Returns (g_full, mag, peak) when the shapes agree, else None."""
+    ref, ctx = cs.ref, cs.ctx
+    gfull = np.asarray(got, dtype=float)
+    exp, mag, nterms, mk = ref_relatedness(ref, sets, idx_list, windows, mode, span_normalise, polarised, centre,
+                                           proportion)
+    e = drop_dims(exp, windows is None, drop_last)
+    if gfull.shape != e.shape:
+        ctx.count(f"named:{mode}")
+        ctx.violation(f"genetic_relatedness/{mode}/shape", f"{what}: shape {gfull.shape} expected {e.shape}",
+                      cs.detail())
+        return None
+    g_full = gfull.reshape(exp.shape)
+    peak = None if proportion else (float(np.max(mag)) if mag.size else 0.0)
+    ctx.feature(f"relatedness:pol={int(polarised)},centre={int(centre)},prop={int(proportion)}")
+    if proportion:
+        ctx.count("relatedness:entries-compared", int(mk.sum()))
+        ctx.count("relatedness:entries-ill-conditioned", int((~mk).sum()))
+    cs.check(f"named:{mode}", f"genetic_relatedness/{mode}/summary-function", g_full, np.where(mk, exp, g_full),
+             tol_from(mag, peak), what)
+    if proportion:
+        zd = ref.last_zero_denominator
+        ctx.count("relatedness:entries-zero-denominator", int(zd.sum()))
+        if np.any(np.isfinite(g_full[zd])):
+            ctx.violation(f"genetic_relatedness/{mode}/proportion-zero-denominator-finite",
+                          f"{what}: segregating_sites of all samples in the sets is exactly 0 in some entries, where "
+                          f"the quotient must be nan or inf, but got {_fmt(got)}", cs.detail())
+    return g_full, mag, peak
 
 
 def relatedness(cs, rng, mode, windows, span_normalise):
@@ -766,25 +882,11 @@ def relatedness(cs, rng, mode, windows, span_normalise):
             return
         unexpected_error(cs, f"genetic_relatedness/{mode}", what, got)
         return
-    gfull = np.asarray(got, dtype=float)
-    exp, mag, nterms, mk = ref_relatedness(ref, sets, idx_list, windows, mode, span_normalise, polarised, centre,
-                                           proportion)
-    e = drop_dims(exp, windows is None, drop_last)
-    if gfull.shape != e.shape:
-        ctx.count(f"named:{mode}")
-        ctx.violation(f"genetic_relatedness/{mode}/shape", f"{what}: shape {gfull.shape} expected {e.shape}",
-                      cs.detail())
+    res = check_relatedness_values(cs, sets, idx_list, windows, mode, span_normalise, polarised, centre, proportion,
+                                   drop_last, got, what)
+    if res is None or proportion:
         return
-    g_full = gfull.reshape(exp.shape)
-    peak = None if proportion else (float(np.max(mag)) if mag.size else 0.0)
-    ctx.feature(f"relatedness:pol={int(polarised)},centre={int(centre)},prop={int(proportion)}")
-    if proportion:
-        ctx.count("relatedness:entries-compared", int(mk.sum()))
-        ctx.count("relatedness:entries-ill-conditioned", int((~mk).sum()))
-    cs.check(f"named:{mode}", f"genetic_relatedness/{mode}/summary-function", g_full, np.where(mk, exp, g_full),
-             tol_from(mag, peak), what)
-    if proportion:
-        return
+    g_full, mag, peak = res
     # first principles: E[m(I,J) - m(I,S) - m(J,T) + m(S,T)] with m the average number of shared alleles /
     # area of shared branches over pairs of members (docstring)
     ns = len(sets)
@@ -833,12 +935,17 @@ def symmetrise(a):
     return a + flipped
 
 
-def check_afs(cs, sets, arg, windows, mode, polarised, span_normalise, tag=""):
+def check_afs(cs, sets, arg, windows, mode, polarised, span_normalise, tag="", caller=None):
+    """caller: optional (thunk, description) making the call in another argument form (lib/props/c08_wide.py)."""
     ts, ref, ctx = cs.ts, cs.ref, cs.ctx
     what = (f"allele_frequency_spectrum(sample_sets={arg}, windows={windows}, mode={mode}, "
             f"span_normalise={span_normalise}, polarised={polarised})")
-    ok, got = call(ctx, ts.allele_frequency_spectrum, arg, windows=windows, mode=mode,
-                   span_normalise=span_normalise, polarised=polarised)
+    if caller is not None:
+        what = caller[1]
+        ok, got = call(ctx, caller[0])
+    else:
+        ok, got = call(ctx, ts.allele_frequency_spectrum, arg, windows=windows, mode=mode,
+                       span_normalise=span_normalise, polarised=polarised)
     if not ok:
         unexpected_error(cs, f"afs/{mode}", what, got)
         return
@@ -1187,71 +1294,86 @@ def fam_trait(cs, rng):
         if not ok:
             unexpected_error(cs, f"{stat}/{mode}", what, got)
             continue
-        got = np.asarray(got, dtype=float)
-        Wc = W - W.mean(axis=0)
-        skipmask = None
-        if stat == "trait_covariance":
-            def f1(x):
-                return x * x / (2 * (n - 1) ** 2)
-            e1, m1, _ = ref.general(Wc, f1, windows, mode, False, span_normalise)
+        check_trait_values(cs, stat, W, Z, windows, mode, span_normalise, got, what)
 
-            def f2(g):
-                return np.array([np.cov(g, W[:, j])[0, 1] ** 2 / 2 for j in range(k)])
-        elif stat == "trait_correlation":
-            sd = np.sqrt(((Wc ** 2).sum(axis=0)) / (n - 1))
-            Ws = np.column_stack([Wc / sd, np.ones(n)])
 
-            def f1(x):
-                c = x[k]
-                if 0 < c < n:
-                    return x[:k] ** 2 / (2 * c * (1 - c / n) * (n - 1))
+def trait_expected(ref, stat, W, Z, windows, mode, span_normalise):
+    """(e1, m1, e2, m2, illcond): route (1) documented summary function on centred / standardised weights (None
+    for trait_linear_model), route (2) numpy cov / corrcoef / least squares on the 0/1 inheritance vector."""
+    n = ref.n
+    k = W.shape[1]
+    eye = np.eye(n)
+    Wc = W - W.mean(axis=0)
+    illcond = []
+    e1 = m1 = None
+    if stat == "trait_covariance":
+        def f1(x):
+            return x * x / (2 * (n - 1) ** 2)
+        e1, m1, _ = ref.general(Wc, f1, windows, mode, False, span_normalise)
+
+        def f2(g):
+            return np.array([np.cov(g, W[:, j])[0, 1] ** 2 / 2 for j in range(k)])
+    elif stat == "trait_correlation":
+        sd = np.sqrt(((Wc ** 2).sum(axis=0)) / (n - 1))
+        Ws = np.column_stack([Wc / sd, np.ones(n)])
+
+        def f1(x):
+            c = x[k]
+            if 0 < c < n:
+                return x[:k] ** 2 / (2 * c * (1 - c / n) * (n - 1))
+            return np.zeros(k)
+        e1, m1, _ = ref.general(Ws, f1, windows, mode, False, span_normalise)
+
+        def f2(g):
+            if g.sum() in (0, n):
                 return np.zeros(k)
-            e1, m1, _ = ref.general(Ws, f1, windows, mode, False, span_normalise)
+            return np.array([np.corrcoef(g, W[:, j])[0, 1] ** 2 / 2 for j in range(k)])
+    else:
+        base = np.ones((n, 1)) if Z is None else np.column_stack([np.ones(n), Z])
 
-            def f2(g):
-                if g.sum() in (0, n):
-                    return np.zeros(k)
-                return np.array([np.corrcoef(g, W[:, j])[0, 1] ** 2 / 2 for j in range(k)])
-        else:
-            e1 = None
-            base = np.ones((n, 1)) if Z is None else np.column_stack([np.ones(n), Z])
-            illcond = []
+        def f2(g):
+            # residual of g on the covariates decides whether g is in their span
+            coef, *_ = np.linalg.lstsq(base, g, rcond=None)
+            r = float(((g - base @ coef) ** 2).sum())
+            if r < 1e-12:
+                return np.zeros(k)
+            if r < 1e-4:
+                illcond.append(r)
+            X = np.column_stack([base[:, :1], g, base[:, 1:]])
+            b, *_ = np.linalg.lstsq(X, W, rcond=None)
+            return b[1] ** 2 / 2
+    e2, m2, _ = ref.general(eye, f2, windows, mode, False, span_normalise)
+    return e1, m1, e2, m2, illcond
 
-            def f2(g):
-                # residual of g on the covariates decides whether g is in their span
-                coef, *_ = np.linalg.lstsq(base, g, rcond=None)
-                r = float(((g - base @ coef) ** 2).sum())
-                if r < 1e-12:
-                    return np.zeros(k)
-                if r < 1e-4:
-                    illcond.append(r)
-                X = np.column_stack([base[:, :1], g, base[:, 1:]])
-                b, *_ = np.linalg.lstsq(X, W, rcond=None)
-                return b[1] ** 2 / 2
-        e2, m2, _ = ref.general(eye, f2, windows, mode, False, span_normalise)
-        shapes = [e2.shape if windows is not None else e2.shape[1:]]
-        if k == 1 and windows is None and mode != "node":
-            shapes.append(())  # docstrings: "a numpy scalar is returned"; the code keeps a length-1 axis
-        if got.shape not in shapes:
-            ctx.count(f"trait:{mode}")
-            ctx.violation(f"{stat}/{mode}/shape", f"{what}: shape {got.shape} expected {shapes[0]}", cs.detail())
-            continue
-        g_full = got.reshape(e2.shape)
-        scale = float(np.abs(W).sum() + 1) ** 2
-        peak2 = float(np.max(m2)) if m2.size else 0.0
-        ctx.feature(f"trait:{stat}")
-        if stat == "trait_linear_model":
-            if illcond:
-                ctx.count("trait:ill-conditioned-skipped")
-                continue
-            cs.check(f"trait:{mode}", f"{stat}/{mode}/least-squares-definition", g_full, e2,
-                     1e-7 * (m2 + peak2 + 1e-6 * scale) + 1e-9, what + " vs numpy least squares")
-            continue
-        peak1 = float(np.max(m1)) if m1.size else 0.0
-        cs.check(f"trait:{mode}", f"{stat}/{mode}/summary-function", g_full, e1,
-                 1e-8 * (m1 + peak1 + 1e-6 * scale) + 1e-10, what)
-        cs.check(f"trait-first-principles:{mode}", f"{stat}/{mode}/covariance-definition", g_full, e2,
-                 1e-8 * (m2 + peak2 + 1e-6 * scale) + 1e-10, what + " vs numpy cov/corrcoef")
+
+def check_trait_values(cs, stat, W, Z, windows, mode, span_normalise, got, what):
+    ref, ctx = cs.ref, cs.ctx
+    k = W.shape[1]
+    got = np.asarray(got, dtype=float)
+    e1, m1, e2, m2, illcond = trait_expected(ref, stat, W, Z, windows, mode, span_normalise)
+    shapes = [e2.shape if windows is not None else e2.shape[1:]]
+    if k == 1 and windows is None and mode != "node":
+        shapes.append(())  # docstrings: "a numpy scalar is returned"; the code keeps a length-1 axis
+    if got.shape not in shapes:
+        ctx.count(f"trait:{mode}")
+        ctx.violation(f"{stat}/{mode}/shape", f"{what}: shape {got.shape} expected {shapes[0]}", cs.detail())
+        return
+    g_full = got.reshape(e2.shape)
+    scale = float(np.abs(W).sum() + 1) ** 2
+    peak2 = float(np.max(m2)) if m2.size else 0.0
+    ctx.feature(f"trait:{stat}")
+    if stat == "trait_linear_model":
+        if illcond:
+            ctx.count("trait:ill-conditioned-skipped")
+            return
+        cs.check(f"trait:{mode}", f"{stat}/{mode}/least-squares-definition", g_full, e2,
+                 1e-7 * (m2 + peak2 + 1e-6 * scale) + 1e-9, what + " vs numpy least squares")
+        return
+    peak1 = float(np.max(m1)) if m1.size else 0.0
+    cs.check(f"trait:{mode}", f"{stat}/{mode}/summary-function", g_full, e1,
+             1e-8 * (m1 + peak1 + 1e-6 * scale) + 1e-10, what)
+    cs.check(f"trait-first-principles:{mode}", f"{stat}/{mode}/covariance-definition", g_full, e2,
+             1e-8 * (m2 + peak2 + 1e-6 * scale) + 1e-10, what + " vs numpy cov/corrcoef")
 
 
 # ---------------------------------------------------------------------------------------- family: topo
@@ -1432,7 +1554,8 @@ def gen_infinite_sites(rng, max_sites=8, big=False):
     m = None
     for attempt in range(20):
         if big:
-            m = gen.gen_topology(rng, n=rng.choice([31, 32, 33, 34, 63, 64, 65, 66, 70]), max_bp=2,
+            m = gen.gen_topology(rng, n=rng.choice([31, 32, 33, 34, 63, 64, 65, 66, 70, 127, 128, 129, 130, 255, 256, 257]),
+                                 max_bp=2,
                                  sample_mode=rng.choice(["all", "any", "young"]), gaps=False)
         else:
             m = gen.gen_topology(rng, max_nodes=9, max_bp=4, sample_mode="all" if attempt > 3 else None,
@@ -1517,8 +1640,19 @@ def fam_ld(case, ctx, rng):
             rows = sorted(rng.sample(range(S), rng.randint(1, S)))
             cols = sorted(rng.sample(range(S), rng.randint(1, S)))
             sites_arg = [rows, cols]
+        if sites_arg is not None:
+            # documented containers: "a list of lists, tuples, or ndarrays"
+            # (a 64-bit index array is refused with a TypeError - an error, not a wrong value: not generated)
+            sform = rng.choice(["list", "tuple", "np.int32"])
+            ctx.feature(f"ld_matrix:sites={sform}")
+            conv = {"list": list, "tuple": tuple, "np.int32": lambda a: np.array(a, dtype=np.int32)}[sform]
+            sites_arg = [conv(a) for a in sites_arg]
         what = f"ld_matrix(sample_sets={sets_arg}, sites={sites_arg}, stat={stat!r})"
-        ok, got = call(ctx, ts.ld_matrix, sets_arg, sites=sites_arg, stat=stat)
+        if stat == "r2" and rng.random() < 0.5:
+            ctx.feature("ld_matrix:default-stat")  # documented defaults stat="r2", mode="site" left out
+            ok, got = call(ctx, ts.ld_matrix, sets_arg, sites_arg)
+        else:
+            ok, got = call(ctx, ts.ld_matrix, sets_arg, sites=sites_arg, stat=stat, mode="site")
         if not ok:
             unexpected_error(cs, "ld_matrix", what, got)
             continue
@@ -1556,7 +1690,10 @@ def fam_ld(case, ctx, rng):
     except Exception as e:
         unexpected_error(cs, "LdCalculator", "LdCalculator(ts)", e)
         return
-    ok, M = call(ctx, ldc.r2_matrix)
+    alias = rng.random() < 0.4  # deprecated aliases get_r2 / get_r2_array / get_r2_matrix
+    if alias:
+        ctx.feature("ldcalc:deprecated-aliases")
+    ok, M = call(ctx, ldc.get_r2_matrix if alias else ldc.r2_matrix)
     if not ok:
         unexpected_error(cs, "LdCalculator", "r2_matrix()", M)
         return
@@ -1585,11 +1722,25 @@ def fam_ld(case, ctx, rng):
             kw["max_sites" if rng.random() < 0.7 else "max_mutations"] = ms
             lim = min(lim, ms)
         if rng.random() < 0.5:
-            md = rng.randint(0, 32) * ref.L / 32 + ref.L / 128  # never equal to a distance between sites
+            if others and rng.random() < 0.5:
+                # EXACTLY the distance to one of the other sites: "the maximum absolute distance between the focal
+                # sites and those for which r2 values are returned" - a site at that distance is within the maximum
+                md = abs(pos[rng.choice(others)] - pos[a])
+                ctx.feature("ldcalc:max_distance-equals-a-site-distance")
+            else:
+                md = rng.randint(0, 32) * ref.L / 32 + ref.L / 128  # never equal to a distance between sites
             kw["max_distance"] = md
-            lim = min(lim, sum(1 for b in others if abs(pos[b] - pos[a]) < md))
-        what = f"LdCalculator.r2_array({a}, {kw})"
-        ok, arr = call(ctx, ldc.r2_array, a, **kw)
+            n_in = 0
+            for b in others:  # the walk stops at the first site beyond the maximum
+                if abs(pos[b] - pos[a]) <= md:
+                    n_in += 1
+                else:
+                    break
+            lim = min(lim, n_in)
+        what = f"LdCalculator.{'get_' if alias else ''}r2_array({a}, {kw})"
+        if alias and "max_sites" in kw:
+            kw["max_mutations"] = kw.pop("max_sites")  # the alias only has the deprecated spelling
+        ok, arr = call(ctx, ldc.get_r2_array if alias else ldc.r2_array, a, **kw)
         if not ok:
             unexpected_error(cs, "LdCalculator", what, arr)
             continue
@@ -1606,7 +1757,7 @@ def fam_ld(case, ctx, rng):
                 break
         # single value
         b = rng.randrange(S)
-        ok, x = call(ctx, ldc.r2, a, b)
+        ok, x = call(ctx, ldc.get_r2 if alias else ldc.r2, a, b)
         e = r2_ref(a, b)
         if ok and e is not None:
             ctx.count("ldcalc:r2")
@@ -1980,7 +2131,8 @@ def fam_msprime(case, ctx, rng):
     cs = Case(m, ctx)
     ctx.sig(("C08", "msprime", m.signature()))
     ctx.feature("msprime:" + ("discrete" if discrete else "continuous"))
-    fn = rng.choice([fam_general, fam_named, fam_named, fam_afs, fam_matrix, fam_topo, fam_meta, fam_trait])
+    fn = rng.choice([fam_general, fam_named, fam_named, fam_afs, fam_matrix, fam_topo, fam_meta, fam_trait,
+                     WIDE.fam_forms, WIDE.fam_forms])
     ctx.count("msprime-inputs")
     fn(cs, rng)
 
@@ -2065,16 +2217,36 @@ def fam_dist(case, ctx, rng):
         lams = []
         ctx.feature("dist:internal-sample-kc-skipped")
     total = {lam: 0.0 for lam in lams}
+    # how the Tree objects are obtained: at_index | copies of the trees of the iterator | a Tree seeked to the index
+    how = rng.choice(["at_index", "iterator-copy", "seek_index"])
+    ctx.feature(f"dist:trees-from={how}")
+    if how == "iterator-copy":
+        trees1 = [t.copy() for t in ts1.trees(sample_lists=True)]
+        trees2 = [t.copy() for t in ts2.trees(sample_lists=True)]
     for i, t1 in enumerate(r1.trees):
         for j, t2 in enumerate(r2.trees):
             lo, hi = max(t1.left, t2.left), min(t1.right, t2.right)
             v1, v2 = kc_vectors(r1, t1), kc_vectors(r2, t2)
-            a, b = ts1.at_index(i, sample_lists=True), ts2.at_index(j, sample_lists=True)
+            if how == "at_index":
+                a, b = ts1.at_index(i, sample_lists=True), ts2.at_index(j, sample_lists=True)
+            elif how == "iterator-copy":
+                a, b = trees1[i], trees2[j]
+            else:
+                a, b = tskit.Tree(ts1, sample_lists=True), tskit.Tree(ts2, sample_lists=True)
+                a.seek_index(i)
+                b.seek_index(j)
             for lam in lams:
                 e = float(np.sqrt((((1 - lam) * v1[0] + lam * v1[1] - (1 - lam) * v2[0] - lam * v2[1]) ** 2).sum()))
                 if hi > lo:
                     total[lam] += e * (hi - lo) / r1.L
-                ok, got = call(ctx, a.kc_distance, b, lam)
+                r = rng.random()
+                if lam == 0.0 and r < 0.5:
+                    ctx.feature("dist:default-lambda")  # documented default lambda_=0.0
+                    ok, got = call(ctx, a.kc_distance, b)
+                elif r < 0.75:
+                    ok, got = call(ctx, a.kc_distance, b, lambda_=lam)
+                else:
+                    ok, got = call(ctx, a.kc_distance, b, lam)
                 ctx.count("kc_distance:tree")
                 if not ok:
                     ctx.violation("kc_distance/unexpected-error", f"Tree.kc_distance(lambda={lam}) raised {got}", det)
@@ -2092,8 +2264,31 @@ def fam_dist(case, ctx, rng):
             elif got != e:
                 ctx.violation("rf_distance/clade-definition",
                               f"Tree.rf_distance(tree {i}, tree {j}) = {got!r} expected {e!r}", det)
+    # two trees of the SAME tree sequence (and a tree against itself)
+    if len(r1.trees) >= 2 and lams:
+        i, j = rng.sample(range(len(r1.trees)), 2)
+        if rng.random() < 0.2:
+            j = i
+        a, b = ts1.at_index(i, sample_lists=True), ts1.at_index(j, sample_lists=True)
+        v1, v2 = kc_vectors(r1, r1.trees[i]), kc_vectors(r1, r1.trees[j])
+        lam = rng.choice(lams)
+        e = float(np.sqrt((((1 - lam) * v1[0] + lam * v1[1] - (1 - lam) * v2[0] - lam * v2[1]) ** 2).sum()))
+        ok, got = call(ctx, a.kc_distance, b, lam)
+        ctx.count("kc_distance:same-treeseq")
+        if not ok:
+            ctx.violation("kc_distance/unexpected-error", f"Tree.kc_distance(lambda={lam}) raised {got}", det)
+        elif not abs(got - e) <= 1e-9 * (1 + abs(e)):
+            ctx.violation("kc_distance/tree-definition",
+                          f"Tree.kc_distance(tree {i}, tree {j} of the same tree sequence, lambda={lam}) = {got!r} "
+                          f"expected {e!r}", det)
     for lam in lams:
-        ok, got = call(ctx, ts1.kc_distance, ts2, lam)
+        r = rng.random()
+        if lam == 0.0 and r < 0.5:
+            ok, got = call(ctx, ts1.kc_distance, ts2)
+        elif r < 0.75:
+            ok, got = call(ctx, ts1.kc_distance, ts2, lambda_=lam)
+        else:
+            ok, got = call(ctx, ts1.kc_distance, ts2, lam)
         ctx.count("kc_distance:treeseq")
         if not ok:
             ctx.violation("kc_distance/unexpected-error", f"TreeSequence.kc_distance(lambda={lam}) raised {got}", det)
@@ -2102,11 +2297,31 @@ def fam_dist(case, ctx, rng):
                           f"TreeSequence.kc_distance(lambda={lam}) = {got!r} expected {total[lam]!r}", det)
 
 
+    # documented: rf_distance raises ValueError if either tree has multiple roots (an isolated extra sample is a root)
+    if case["k"] % 4 == 0:
+        m3 = m1.copy()
+        m3.nodes = list(m3.nodes) + [(NODE_IS_SAMPLE, 0.0, NULL, NULL, b"")]
+        ts3 = to_ts(m3)
+        t3 = ts3.first()
+        for x, y, desc in ((t3, t3, "multi-root vs itself"), (ts1.first(), t3, "single-root vs multi-root"),
+                           (t3, ts1.first(), "multi-root vs single-root")):
+            ok, got = call(ctx, x.rf_distance, y)
+            ctx.count("rf_distance:multi-root-refused")
+            if ok:
+                ctx.violation("rf_distance/multi-root-accepted", f"Tree.rf_distance({desc}) returned {got!r} instead "
+                              f"of raising ValueError", det)
+            elif not isinstance(got, ValueError):
+                ctx.violation("rf_distance/multi-root-wrong-exception",
+                              f"Tree.rf_distance({desc}) raised {type(got).__name__}: {got} (documented: ValueError)", det)
+
+
 fam_dist.own_input = True
 
 # ---------------------------------------------------------------------------------------- dispatch
 
-FAM_FUNCS = {"general": fam_general, "named": fam_named, "afs": fam_afs, "matrix": fam_matrix, "trait": fam_trait, "topo": fam_topo, "ld": fam_ld, "meta": fam_meta, "threads": fam_threads, "tsan": fam_tsan, "msprime": fam_msprime, "dist": fam_dist, "d16-witness": fam_d16}
+from lib.props import c08_wide as WIDE  # noqa: E402  (uses the helpers above; imported last on purpose)
+
+FAM_FUNCS = {"forms": WIDE.fam_forms, "coal": WIDE.fam_coal, "big": WIDE.fam_big, "general": fam_general, "named": fam_named, "afs": fam_afs, "matrix": fam_matrix, "trait": fam_trait, "topo": fam_topo, "ld": fam_ld, "meta": fam_meta, "threads": fam_threads, "tsan": fam_tsan, "msprime": fam_msprime, "dist": fam_dist, "d16-witness": fam_d16}
 
 
 def run_case(case, ctx):
